@@ -307,3 +307,77 @@ Definition receive_f (fixed : rev) (y : delivery) : verdict :=
 Definition receive := receive_f V2.       (* the code as it is now *)
 Definition receive_v1 := receive_f V1.    (* after b84752ad, before e76039c1: finding C06-F3 *)
 Definition receive_v0 := receive_f V0.    (* the pinned snapshot: finding C06-F2 *)
+
+(* ------------------------------------------------------------------------------------------
+   The configuration.  How the SP option allow_unsolicited is WRITTEN in the service/sp section of the
+   configuration, and what the receiver then runs with:
+   Config.load_special (config.py): the strings "true" / "false" become True / False, anything else is kept;
+   Config.getattr: an option that was never set reads as None;
+   Base.__init__ (client_base.py): None -> the default (False); a string -> what it says, or SAMLError (since
+   6bdc97cd; before: "true" -> True, anything else kept); anything else is kept;
+   AuthnResponse ("elif self.allow_unsolicited:"): the truth value of what was kept - a number other than 0
+   counts as true (before 6bdc97cd a non-empty string did as well: finding C06-F4).
+   [how] = the way the configuration object was made (SPConfig / Config / IdPConfig loaded from the dict,
+   config_factory("sp", dict), Saml2Client(config_file=module)): the option is read through
+   getattr(attr, "sp") whatever the class, so the decision does not depend on it. *)
+Inductive optval := OAbsent | ONone | OBool (b : bool) | OStr (s : string) | OInt (n : nat).
+Inductive loader := LSPConfig | LConfig | LIdPConfig | LFactoryDict | LClientFile.
+Record setup := { opt : optval; how : loader }.
+
+Definition load_special_val (v : optval) : optval :=
+  match v with
+  | OStr s => if String.eqb s "true" then OBool true else if String.eqb s "false" then OBool false else v
+  | _ => v
+  end.
+
+(* Base.__init__ as it is now (6bdc97cd): a string is read by what it says - stripped and lower-cased it must be one
+   of the words below - and any other string raises SAMLError: no client ([None]).  Anything that is no string is kept. *)
+Definition init_yes_words : list string := ["true"; "yes"; "on"; "1"].
+Definition init_no_words : list string := ["false"; "no"; "off"; "0"; ""].
+
+Definition client_init_val (v : optval) : option optval :=
+  match v with
+  | OAbsent | ONone => Some (OBool false)
+  | OStr s => let w := lower (strip s) in
+              if mem w init_yes_words then Some (OBool true)
+              else if mem w init_no_words then Some (OBool false) else None
+  | _ => Some v
+  end.
+
+(* before 6bdc97cd (finding C06-F4): only "true" was mapped, any other string was kept *)
+Definition client_init_val_v0 (v : optval) : optval :=
+  match v with
+  | OAbsent | ONone => OBool false
+  | OStr s => if String.eqb s "true" then OBool true else v
+  | _ => v
+  end.
+
+Definition truthy (v : optval) : bool :=
+  match v with
+  | OAbsent | ONone => false
+  | OBool b => b
+  | OStr s => negb (is_empty s)
+  | OInt n => negb (n =? 0)%nat
+  end.
+
+(* what the receiver runs with; None: the client cannot be built *)
+Definition effective_allow (v : optval) : option bool := option_map truthy (client_init_val (load_special_val v)).
+Definition effective_allow_v0 (v : optval) : bool := truthy (client_init_val_v0 (load_special_val v)).
+
+Definition with_allow (b : bool) (x : input) : input :=
+  {| allow_unsolicited := b; outstanding := outstanding x; irt := irt x; version := version x;
+     status_top := status_top x; status_second := status_second x; assertions := assertions x |}.
+
+Definition configure (b : bool) (y : delivery) : delivery :=
+  {| via := via y; dest := dest y; sealed := sealed y; resp := with_allow b (resp y) |}.
+
+(* the decision of a receiver set up by [s]; the allow_unsolicited field of [resp y] is not looked at; a receiver
+   that cannot be built produces no identity whatever is delivered *)
+Definition receive_cfg (s : setup) (y : delivery) : verdict :=
+  match effective_allow (opt s) with
+  | Some b => receive (configure b y)
+  | None => NoId
+  end.
+
+(* the pinned state before 6bdc97cd *)
+Definition receive_cfg_v0 (s : setup) (y : delivery) : verdict := receive (configure (effective_allow_v0 (opt s)) y).
